@@ -4,5 +4,6 @@ package database
 var Registry = map[string]func([]int64){
 	"HarnessFileRoundTrip":         func(a []int64) { HarnessFileRoundTrip(int(a[0])) },
 	"HarnessInitRestart":           func(a []int64) { HarnessInitRestart(int(a[0])) },
+	"HarnessCheckpointMismatch":    func(a []int64) { HarnessCheckpointMismatch(int(a[0])) },
 	"HarnessExportOverEarlierFile": func(a []int64) { HarnessExportOverEarlierFile(int(a[0]), int(a[1])) },
 }
